@@ -546,9 +546,8 @@ theorem final_agree (tx : TxCtx) (flags : Nat) (hf : ScriptSpec.FlagsOk (ScriptS
 
 theorem writePutLen_eq (v : Bytes) (h : v.length ≤ 42) : writePutLen v.length ++ v = ScriptSpec.pushEncoding v := by
   unfold writePutLen ScriptSpec.pushEncoding
-  have h1 : v.length ≤ 0x4c := by omega
   have h2 : v.length < 0x4c := by omega
-  simp [h1, h2]
+  simp [h2]
 
 theorem witnessProgram_len (s : Bytes) (vp : Nat × Bytes) (h : ScriptSpec.witnessProgram? s = some vp) : s.length ≤ 42 := by
   unfold ScriptSpec.witnessProgram? at h
